@@ -156,7 +156,7 @@ func readCfg(r *core.Run, name string) string {
 }
 
 // generate runs the program generator in parallel shards and returns the exported programs
-func generate(r *core.Run, base string, shards int, stride int, offset int64) []program {
+func generate(r *core.Run, base string, shards int, workers int, stride int, offset int64) []program {
 	tmpl := readCfg(r, base)
 	if tmpl == "" {
 		return nil
@@ -166,10 +166,11 @@ func generate(r *core.Run, base string, shards int, stride int, offset int64) []
 	core.Parallel(shards, shards, func(i int) {
 		cfg := strings.Replace(tmpl, "Shard = 0", fmt.Sprintf("Shard = %d", i), 1)
 		cfg = strings.Replace(cfg, "Shards = 1", fmt.Sprintf("Shards = %d", shards), 1)
-		cfg = strings.Replace(cfg, "Stride = 1", fmt.Sprintf("Stride = %d", stride), 1)
-		cfg = strings.Replace(cfg, "Offset = 0", fmt.Sprintf("Offset = %d", offset%int64(stride)), 1)
+		cfg = strings.Replace(cfg, "\n  Stride = 1", fmt.Sprintf("\n  Stride = %d", stride), 1)
+		// the offset rotates both samples (pairs: every Stride-th; singles: every SStride-th position per construct)
+		cfg = strings.Replace(cfg, "Offset = 0", fmt.Sprintf("Offset = %d", ((offset%1000)+1000)%1000), 1)
 		name := fmt.Sprintf("LoweringProgs.shard%d.cfg", i)
-		res := tlcrun.MustHold(r, tlcrun.Options{Module: "LoweringProgs", Config: name, Workers: 2, TimeoutSec: 1500, HeapGB: 4,
+		res := tlcrun.MustHold(r, tlcrun.Options{Module: "LoweringProgs", Config: name, Workers: workers, TimeoutSec: 1500, HeapGB: 4,
 			Files: map[string]string{name: cfg},
 			OnCase: func(raw []byte) {
 				var p program
@@ -228,6 +229,9 @@ func diffClass(n, l *obs) string {
 		}
 		return "lowered-trace-is-prefix-same-throw"
 	}
+	if n.C != l.C && l.C == "throw:TypeError" && strings.HasPrefix(n.C, "throw:") && len(l.T) < len(n.T) && sameTrace(l.T, n.T[:len(l.T)]) {
+		return "lowered-throws-typeerror-before-native-throw"
+	}
 	if n.C != l.C && len(n.T) == len(l.T) {
 		same := true
 		for i := range l.T {
@@ -246,7 +250,17 @@ func diffClass(n, l *obs) string {
 // initialiser / static block that is lowered out of the class body runs in sloppy mode in a
 // script, so an assignment to a property of a primitive (TypeError in the strict class body)
 // silently succeeds and evaluation continues.  ref = native (or, spec_only, spec) observation.
-func signature(name, pos string, ref, l *obs) string {
+func signature(name, pos string, env []string, ref, l *obs) string {
+	if s := objSignature(name, env, ref, l); s != "" {
+		return s
+	}
+	// `(a?.b)(c)` inside a parameter default value: the temporary that holds the receiver is
+	// declared as the parameter of an arrow wrapped around the chain only, the `.call(_a, ...)`
+	// outside of it reads an undeclared variable (reproduced by hand, see known_findings.jsonl)
+	if ref != nil && l != nil && knownConstruct(name) == "oc_parencall" && (pos == "dflt" || pos == "ddflt") &&
+		l.C == "throw:ReferenceError" && ref.C != l.C && len(l.T) <= len(ref.T) && sameTrace(l.T, ref.T[:len(l.T)]) {
+		return "parenthesised-optional-chain-callee-temporary-out-of-scope-in-parameter-default"
+	}
 	if ref == nil || l == nil || ref.C != "throw:TypeError" || !strings.HasPrefix(l.C, "ret:") || len(l.T) < len(ref.T) {
 		return ""
 	}
@@ -257,12 +271,82 @@ func signature(name, pos string, ref, l *obs) string {
 	}
 	static := pos == "sfield" || pos == "sblock"
 	for _, c := range constructsOf(name) {
+		if c == "d_sblockset" {
+			static = true
+		}
+	}
+	for _, c := range constructsOf(name) {
 		if strings.HasPrefix(c, "class_") && (strings.Contains(c, "c_sfield") || strings.Contains(c, "c_csfield") || strings.Contains(c, "c_sblock") || strings.Contains(c, "c_spfield")) {
 			static = true
 		}
 	}
 	if static {
 		return "strict-mode-lost-in-lowered-static-initialiser"
+	}
+	return ""
+}
+
+func hasEnv(env []string, cl string) bool {
+	for _, e := range env {
+		if e == cl {
+			return true
+		}
+	}
+	return false
+}
+
+func sameTrace(a, b []string) bool {
+	if len(a) != len(b) {
+		return false
+	}
+	for i := range a {
+		if a[i] != b[i] {
+			return false
+		}
+	}
+	return true
+}
+
+func withoutTraps(t []string) []string {
+	var out []string
+	for _, e := range t {
+		if strings.HasPrefix(e, "ownKeys:") || strings.HasPrefix(e, "gopd:") || strings.HasPrefix(e, "getProto:") || strings.HasPrefix(e, "has:") {
+			continue
+		}
+		out = append(out, e)
+	}
+	return out
+}
+
+// objSignature names the genuine defects of the unchanged tree that the object-model families
+// found (each reproduced by hand, see known_findings.jsonl / design.d/C05.md).  A signature is
+// the exact shape of the difference, so that any other difference in the same program stays a
+// violation.
+func objSignature(name string, env []string, ref, l *obs) string {
+	if ref == nil || l == nil {
+		return ""
+	}
+	cs := constructsOf(name)
+	if len(cs) != 1 {
+		return ""
+	}
+	c := cs[0]
+	isPrefix := len(l.T) >= len(ref.T) && sameTrace(ref.T, l.T[:len(ref.T)])
+	all := strings.Join(l.T, " ") + " " + l.C
+	const ownProto, reparented = "<Object|__proto__=own:EWC:mark:m>", "<mark:m|>"
+	switch {
+	case strings.HasPrefix(c, "d_") && c != "d_ctorset" && c != "d_sblockset" && c != "d_superset" && c != "d_superget" &&
+		hasEnv(env, "BF") && ref.C == "throw:TypeError" && isPrefix && strings.Contains(all, "[str:<other|>,str:undef]"):
+		return "field-definition-on-non-extensible-object-silently-ignored"
+	case strings.HasPrefix(c, "s_") && hasEnv(env, "PX") && ref.C == l.C && !sameTrace(ref.T, l.T) && sameTrace(withoutTraps(ref.T), withoutTraps(l.T)):
+		return "proxy-trap-sequence-of-lowered-copy"
+	case strings.HasPrefix(c, "s_rest") && hasEnv(env, "OP") && len(ref.T) == len(l.T) &&
+		strings.Contains(strings.Join(ref.T, " ")+" "+ref.C, ownProto) &&
+		all == strings.Replace(strings.Join(ref.T, " ")+" "+ref.C, ownProto, reparented, -1):
+		return "object-rest-assigns-own-__proto__-key"
+	case c == "d_superset" && ref.C == "throw:TypeError" && !strings.HasPrefix(l.C, "throw:TypeError") && isPrefix && len(l.T) > len(ref.T)-1 &&
+		(hasEnv(env, "BG") || hasEnv(env, "BR") || hasEnv(env, "BF")):
+		return "failed-super-assignment-ignored-in-lowered-async-method"
 	}
 	return ""
 }
@@ -310,9 +394,9 @@ func Run(r *core.Run) {
 
 	var progs []program
 	if r.Thorough() {
-		progs = generate(r, "LoweringProgs.thorough.cfg", 8, 2, r.Seed)
+		progs = generate(r, "LoweringProgs.thorough.cfg", 8, 2, 3, r.Seed)
 	} else {
-		progs = generate(r, "LoweringProgs.quick.cfg", 6, 1, r.Seed)
+		progs = generate(r, "LoweringProgs.quick.cfg", 6, 1, 1, r.Seed)
 	}
 	wg.Wait()
 	if len(progs) == 0 {
@@ -440,11 +524,11 @@ func Run(r *core.Run) {
 				// Nestings with another construct have no native cross-validation of the combination:
 				// a disagreement there is a verdict only if it is an instance of a defect already
 				// reproduced by hand (signature / known construct), otherwise SPEC-DRIFT.
-				sig := signature(p.Name, pos, m.Spec, m.Lowered)
+				sig := signature(p.Name, pos, m.Env, m.Spec, m.Lowered)
 				knownShape := sig != "" || (knownConstruct(p.Name) != "" && diffClass(m.Spec, m.Lowered) == "lowered-trace-is-prefix-same-throw")
 				if handVerified(p.Name) && (!p.Pair || knownShape) {
 					r.Violation(map[string]interface{}{"kind": "spec-only-trace", "program": p.Name, "construct": family(p.Name), "position": pos, "variant": m.Variant,
-						"diff": diffClass(m.Spec, m.Lowered), "known_construct": knownConstruct(p.Name), "signature": signature(p.Name, pos, m.Spec, m.Lowered)},
+						"diff": diffClass(m.Spec, m.Lowered), "known_construct": knownConstruct(p.Name), "signature": sig},
 						fmt.Sprintf("lowered %s behaves differently from the proposal semantics (variant %s, env %v): expected %v %s, got %v %s",
 							p.Name, m.Variant, m.Env, m.Spec.T, m.Spec.C, m.Lowered.T, m.Lowered.C),
 						map[string]interface{}{"program": p, "mismatch": m, "same_output_for": keysOf(m.Variant)})
@@ -466,10 +550,19 @@ func Run(r *core.Run) {
 			m := res.SpecMismatches[0]
 			r.Drift("%s env %v: spec predicts %v %s, native V8 gives %v %s", p.Name, m.Env, m.Spec.T, m.Spec.C, m.Native.T, m.Native.C)
 		}
+		// one report per program and kind of difference (a known defect in one environment must
+		// not hide another difference of the same program)
+		reported := map[string]bool{}
 		for _, m := range res.Mismatches {
 			if m.SpecAgreesWithNative != nil && !*m.SpecAgreesWithNative {
 				continue // spec and native disagree on the original: excluded (counted as drift above)
 			}
+			sig := signature(p.Name, pos, m.Env, m.Native, m.Lowered)
+			dc := diffClass(m.Native, m.Lowered)
+			if reported[sig+"|"+dc] {
+				continue
+			}
+			reported[sig+"|"+dc] = true
 			var out string
 			for _, v := range np.Variants {
 				if v.Key == m.Variant {
@@ -477,11 +570,10 @@ func Run(r *core.Run) {
 				}
 			}
 			r.Violation(map[string]interface{}{"kind": "trace-differs", "program": p.Name, "construct": family(p.Name), "position": pos, "variant": m.Variant,
-				"diff": diffClass(m.Native, m.Lowered), "known_construct": knownConstruct(p.Name), "signature": signature(p.Name, pos, m.Native, m.Lowered)},
+				"diff": dc, "known_construct": knownConstruct(p.Name), "signature": sig},
 				fmt.Sprintf("%s lowered for %s behaves differently (env %v): native %v %s, lowered %v %s",
 					p.Name, m.Variant, m.Env, m.Native.T, m.Native.C, m.Lowered.T, m.Lowered.C),
 				map[string]interface{}{"program": p.Name, "source": p.Src, "output": out, "mismatch": m, "same_output_for": keysOf(m.Variant), "mismatching_runs": res.NMismatch})
-			break // one report per program
 		}
 		if len(res.Sample) > 0 && (i%400 == 0) {
 			r.Sample(map[string]interface{}{"program": p.Name, "source": p.Src, "variants": len(np.Variants), "envs": len(p.Envs), "first_env": res.Sample})
@@ -499,6 +591,20 @@ func Run(r *core.Run) {
 	r.Set("spec_vs_native_runs_compared", specCompared)
 	r.Set("spec_unpredicted_runs", unpredicted)
 	r.Set("programs_with_spec_drift", driftProgs)
+	objFam := map[string]int{}
+	for f := range famSeen {
+		switch {
+		case strings.HasPrefix(f, "d_"):
+			objFam["definitions_over_base_shapes"]++
+		case strings.HasPrefix(f, "s_"):
+			objFam["copies_over_adversarial_sources"]++
+		case strings.HasPrefix(f, "t_"):
+			objFam["error_timing_cause_x_form"]++
+		case f == "a_then" || f == "a_retthen" || f == "a_forawait_then":
+			objFam["thenables"]++
+		}
+	}
+	r.Set("object_model_constructs_seen", objFam)
 	fams := make([]string, 0, len(famSeen))
 	for f := range famSeen {
 		fams = append(fams, f)
@@ -506,7 +612,7 @@ func Run(r *core.Run) {
 	sort.Strings(fams)
 	r.Set("constructs", len(fams))
 	r.Set("targets", len(targets))
-	r.Set("rule", "case = one program exported by TLC from spec/LoweringProgs.tla (construct x position, thorough: x one nested construct) run under every environment of its probes for the original and for every distinct api.Transform output over 9 targets x single-feature supported overrides x minify off/on; non-trivial = some output differs from the esnext output of the same minify setting (something was lowered); a violation needs native V8 on the original and the lowered output to disagree while the spec (where it predicts) agrees with native")
+	r.Set("rule", "case = one program exported by TLC from spec/LoweringProgs.tla (construct x position incl. the object-model families [definitions over base-class shapes, copies over adversarial sources, error timing, thenables]; quick: label-first covering sample of the positions, thorough: all positions x every 3rd nesting with one more construct) run under every environment of its probes for the original and for every distinct api.Transform output over 9 targets x single-feature supported overrides x minify off/on; non-trivial = some output differs from the esnext output of the same minify setting (something was lowered); a violation needs native V8 on the original and the lowered output to disagree while the spec (where it predicts) agrees with native")
 }
 
 func init() { core.Register("C05", Run) }
